@@ -262,6 +262,120 @@ fn inputs(ctx: &mut Ctx) -> Vec<(String, Vec<u8>)> {
         b.extend_from_slice(&z);
         v.push((name.into(), b));
     }
+    // reference words: Len says how many u32 follow; the words are reserved after the node name and the creation have been
+    // read, so the count must sit in front of a well-formed prefix to reach the reservation at all
+    for tag in [90u8, 114] {
+        for len in [0u16, 1, 3, 5, 255, 256, 4096, 65535] {
+            for present in [0usize, 1, 3, len as usize] {
+                if present > 6 && present != len as usize {
+                    continue;
+                }
+                if present > 300 {
+                    continue;
+                }
+                let mut b = vec![131u8, tag];
+                b.extend_from_slice(&len.to_be_bytes());
+                b.extend_from_slice(&[119, 1, 110]);
+                if tag == 90 {
+                    b.extend_from_slice(&[0, 0, 0, 1]);
+                } else {
+                    b.push(1);
+                }
+                for i in 0..present {
+                    b.extend_from_slice(&(i as u32 + 7).to_be_bytes());
+                }
+                v.push(("ref-words".into(), b));
+            }
+        }
+    }
+    // small tuples and strings whose count is far beyond the data
+    for arity in [1u8, 2, 16, 255] {
+        for present in [0usize, 1, 2] {
+            let mut b = vec![131u8, 104, arity];
+            for _ in 0..present.min(arity as usize) {
+                b.push(106);
+            }
+            v.push(("small-tuple-count".into(), b));
+        }
+    }
+    // the fragment-header readers: well-formed, and cut at every offset
+    {
+        let mut h = vec![131u8, 69];
+        h.extend_from_slice(&0x0102030405060708u64.to_be_bytes());
+        h.extend_from_slice(&3u64.to_be_bytes());
+        h.extend_from_slice(&[1, 0x08, 0, 2, 111, 107, 104, 1, 82, 0]);
+        let mut c = vec![131u8, 70];
+        c.extend_from_slice(&0x0102030405060708u64.to_be_bytes());
+        c.extend_from_slice(&2u64.to_be_bytes());
+        c.extend_from_slice(&[1, 2, 3, 4]);
+        for src in [h, c] {
+            for k in 0..=src.len() {
+                v.push(("frag-reader".into(), src[..k].to_vec()));
+            }
+            for fid in [0u64, 1, u64::MAX] {
+                let mut m = src.clone();
+                m[10..18].copy_from_slice(&fid.to_be_bytes());
+                v.push(("frag-reader".into(), m));
+            }
+        }
+    }
+    // distribution headers: new entries, long atoms, a second term, nesting towers behind a header and in the payload
+    {
+        let hdr2: Vec<u8> = vec![131, 68, 2, 0x88, 0, 0, 2, 111, 107, 1, 1, 120];
+        let mut a = hdr2.clone();
+        a.extend_from_slice(&[104, 2, 82, 0, 82, 1]);
+        let mut with_payload = a.clone();
+        with_payload.extend_from_slice(&[108, 0, 0, 0, 1, 82, 1, 106]);
+        for src in [a.clone(), with_payload.clone()] {
+            for k in 0..=src.len() {
+                v.push(("dist-header".into(), src[..k].to_vec()));
+            }
+        }
+        // long atoms flag (odd count: high nibble of the last flag byte)
+        v.push(("dist-header".into(), vec![131, 68, 1, 0x18, 0, 0, 2, 111, 107, 82, 0]));
+        for n in [0u8, 1, 2, 3, 254, 255] {
+            for tail in [0usize, 1, 200] {
+                let mut b = vec![131u8, 68, n];
+                b.extend(std::iter::repeat(0x88u8).take(tail));
+                v.push(("dist-header-count".into(), b));
+            }
+        }
+        for &d in &[10usize, 255, 256, 257, 258, 600] {
+            let mut t = hdr2.clone();
+            for _ in 0..d {
+                t.extend_from_slice(&[104, 1]);
+            }
+            t.extend_from_slice(&[82, 0]);
+            v.push(("tower-behind-header".into(), t));
+            let mut t = a.clone();
+            for _ in 0..d {
+                t.extend_from_slice(&[108, 0, 0, 0, 1]);
+            }
+            t.push(106);
+            for _ in 0..d {
+                t.push(106);
+            }
+            v.push(("tower-in-payload".into(), t));
+        }
+    }
+    // towers that alternate the wrappers (LOCAL_EXT around COMPRESSED is built by hand: stored zlib blocks)
+    for &d in &[100usize, 254, 255, 256, 257, 258, 400] {
+        let mut b = vec![131u8];
+        for i in 0..d {
+            match i % 3 {
+                0 => b.extend_from_slice(&[104, 1]),
+                1 => b.extend_from_slice(&[121, 9, 9, 9, 9, 9, 9, 9, 9]),
+                _ => b.extend_from_slice(&[108, 0, 0, 0, 1]),
+            }
+        }
+        b.push(106);
+        for i in (0..d).rev() {
+            if i % 3 == 2 {
+                b.push(106);
+            }
+        }
+        v.push(("tower-mixed".into(), b));
+    }
     // truncations and mutations of valid encodings
     let n = ctx.n(120, 3000);
     let cfg = Cfg { huge: false, ..Cfg::default() };
@@ -274,6 +388,11 @@ fn inputs(ctx: &mut Ctx) -> Vec<(String, Vec<u8>)> {
         let step = if b.len() <= 64 { 1 } else { b.len() / 24 };
         for k in (0..b.len()).step_by(step) {
             v.push(("trunc".into(), b[..k].to_vec()));
+        }
+        // the same term without the version byte: what `decode_raw_term` is for
+        v.push(("raw-term".into(), b[1..].to_vec()));
+        if b.len() > 3 {
+            v.push(("raw-term".into(), b[1..b.len() - 1].to_vec()));
         }
         for _ in 0..4 {
             let mut m = b.clone();
@@ -402,7 +521,18 @@ pub fn run(ctx: &mut Ctx) {
                 let bw = crate::c13::borrowed(b).0;
                 let oc = o.split(' ').next().unwrap().to_string();
                 let bc = bw.split(' ').next().unwrap().to_string();
-                ctx.tie(kind, &format!("c02class {} {}", hexarg(b), orc), &format!("{} {}", if oc == "trailing" { "err".into() } else { oc }, if bc == "trailing" { "err".into() } else { bc }));
+                if kind == "chain-compressed" {
+                    ctx.tie(kind, &format!("c02class {} {}", hexarg(b), orc), &format!("{} {}", if oc == "trailing" { "err".into() } else { oc }, if bc == "trailing" { "err".into() } else { bc }));
+                }
+                // every entry point: result class against the model (tie), largest single request of the allocator against
+                // the model's requests (oracle, judged by the driver)
+                if kind != "chain-compressed" {
+                let eps: Vec<(&str, &str)> = res.split(' ').map(|ep| ep.split_once('=').unwrap().1.split_once(':').unwrap()).collect();
+                let classes: Vec<&str> = eps.iter().map(|e| e.0).collect();
+                let peaks: Vec<&str> = eps.iter().map(|e| e.1).collect();
+                ctx.tie(kind, &format!("c02ep {} {}", hexarg(b), orc), &classes.join(" "));
+                ctx.prop(kind, &format!("c02peak {} {} {} {}", hexarg(b), orc, term_size, peaks.join(",")), "ok");
+                }
             }
         }
     }
